@@ -279,10 +279,20 @@ def template_program(k, r):
     gp, sup, usr, ent = "gpk%d" % k, "sup%d" % k, "usr%d" % k, "ent%d" % k
     n_inst = 1 + r.randrange(3)
     support = ("package %s is\n  type my_enum_t is (red, green, blue);\n  type my_int_t is range 0 to 100;\n"
-               "  subtype my_sub_t is integer range 0 to 15;\nend package;\n" % sup)
+               "  subtype my_sub_t is integer range 0 to 15;\n"
+               "  function sid (x : integer) return integer;\n  function sid (x : boolean) return boolean;\n"
+               "  function sid (x : bit) return bit;\n  function sid (x : character) return character;\n"
+               "  function sid (x : my_enum_t) return my_enum_t;\n  function sid (x : my_int_t) return my_int_t;\nend package;\n"
+               "package body %s is\n"
+               "  function sid (x : integer) return integer is begin return x; end function;\n"
+               "  function sid (x : boolean) return boolean is begin return x; end function;\n"
+               "  function sid (x : bit) return bit is begin return x; end function;\n"
+               "  function sid (x : character) return character is begin return x; end function;\n"
+               "  function sid (x : my_enum_t) return my_enum_t is begin return x; end function;\n"
+               "  function sid (x : my_int_t) return my_int_t is begin return x; end function;\nend package body;\n" % (sup, sup))
     own_rec = r.randrange(2) == 0
     gpd = ["library %s;" % lib, "use %s.%s.all;" % (lib, sup), "package %s is" % gp,
-           "  generic (type elem_t; first_v : elem_t; width : natural := 4);",
+           "  generic (type elem_t; first_v : elem_t; width : natural := 4; function gfn (x : elem_t) return elem_t);",
            "  type own_t is (lo, mid, hi);", "  subtype idx_t is natural range 0 to 7;"]
     if own_rec:
         gpd += ["  type pair_t is record", "    a : elem_t;", "    b : own_t;", "  end record;"]
@@ -292,8 +302,8 @@ def template_program(k, r):
             "  type holder_t is record", "    p : eptr_t;", "    v : elem_t;", "  end record;",
             "  type rarr_t is array (0 to 1) of holder_t;", "  type efile_t is file of elem_t;",
             "  type cell_t is protected", "    procedure put (x : elem_t);", "    impure function get return elem_t;", "  end protected;",
-            # (`alias ealias_t is elem_t;` is valid here, but every instance is then rejected with "No association of alias
-            #  'ealias_t'": reported to the coordinator as a candidate finding, not exercised until decided)
+            # aliases of a generic type / generic function / generic constant (F70, fixed d2c5924)
+            "  alias ealias_t is elem_t;", "  alias g is gfn [elem_t return elem_t];", "  alias m is first_v;",
             "  constant three : earr_t;",
             "  function head_of (l : link_t) return elem_t;", "  procedure push (l : inout link_t; x : in elem_t);",
             "  function wrap (x : elem_t) return holder_t;"]
@@ -321,7 +331,7 @@ def template_program(k, r):
         name = "inst%d_%d" % (k, j)
         insts.append((name, ty, v1, v2, op))
         files.append(("t_%s.vhd" % name,
-                      "library %s;\nuse %s.%s.all;\npackage %s is new %s.%s generic map (elem_t => %s, first_v => %s%s);\n"
+                      "library %s;\nuse %s.%s.all;\npackage %s is new %s.%s generic map (elem_t => %s, first_v => %s%s, gfn => sid);\n"
                       % (lib, lib, sup, name, lib, gp, ty, v1, r.choice(["", ", width => 8"]))))
     ul = ["library %s;" % lib, "use %s.%s.all;" % (lib, sup)]
     style = r.randrange(3)          # 0: use inst.all (first instance only), 1/2: selected names
@@ -351,6 +361,8 @@ def template_program(k, r):
         ul.append("  constant ec%d : %searr_t := (%s, %s, %sdflt);" % (j, pre, v1, v2, pre))
         ul.append("  constant ed%d : %sesub_t := %s;" % (j, pre, v2))
         ul.append("  constant ef%d : %s := %swrap(%s).v;" % (j, ty, pre, v1))
+        ul.append("  constant eg%d : %sealias_t := %sg(%s);" % (j, pre, pre, v2))
+        ul.append("  constant eh%d : %s := %sm;" % (j, ty, pre))
         ul.append("  shared variable cell%d : %scell_t;" % (j, pre))
         pbody = ["  px%d : process" % j, "    variable ptr : %septr_t;" % pre, "    variable head : %slink_t;" % pre,
                  "    variable hold : %sholder_t;" % pre, "    variable ra : %srarr_t;" % pre, "    variable x : %s := %s;" % (ty, v1),
